@@ -220,7 +220,9 @@ class C19(Check):
                 return ""
             if k < 0.9:
                 return "".join(chr(rng.randrange(1, 256)) for _ in range(rng.randint(1, 40)))
-            return "".join(chr(rng.choice([0x3d, 0x20, 0x0a, 0xff, 0x61, rng.randrange(1, 256)])) for _ in range(rng.randint(1000, big)))
+            # long value: random non-NUL bytes (randbytes is fast), sprinkled with '=', blanks and line breaks
+            raw = bytes((b or 0x3d) for b in rng.randbytes(rng.randint(1000, big)))
+            return raw.decode("latin-1")
         big = 20000 if quick else 200000
         for _ in range(2000 if quick else 20000):
             pool = [rname() for _ in range(rng.randint(1, 3))]
